@@ -159,3 +159,10 @@ Fixpoint tokenize_fuel (f : nat) (s : list ascii) : option (list token) :=
       end
   end.
 Definition tokenize (s : list ascii) : option (list token) := tokenize_fuel (S (List.length s)) s.
+
+(* the whole route for the text after `#if`: Lexer.tokenize, MacroExpander.expand, evaluate *)
+Definition evaluate_text (env : list (string * list token)) (text : list ascii) : outcome :=
+  match tokenize text with
+  | Some ts => evaluate_for_platform env ts
+  | None => OOutOfFuel
+  end.
